@@ -250,7 +250,9 @@ def V.asScalar? : V → Option Sc | .sc s => some s | _ => none
 
 /-! ### `value_eq` / `value_cmp` (`value/view.rs`) -/
 
-def objGet (kvs : Obj) (k : Str) : Option V := (kvs.find? (·.1 == k)).map (·.2)
+def objGet : Obj → Str → Option V
+  | [], _ => none
+  | (k', v) :: r, k => if k' == k then some v else objGet r k
 
 /-- The non-container part of `value_eq`. -/
 def valueEqFlat (a b : V) : Bool :=
